@@ -178,7 +178,16 @@ func runCase(c tcase) outcome {
 // TestTamperRapid: valid documents x 0-3 mutations x unwrap behaviours x source faults x read scripts.
 func TestTamperRapid(t *testing.T) {
 	sec := vk.Sec("TamperRapid")
-	vk.Check(t, 30000, 2400000, func(rt *rapid.T) {
+	vk.Check(t, 30000, 2400000, tamperProp(sec))
+}
+
+// FuzzTamper drives the same property with Go's coverage-guided fuzzer (the fuzz input is rapid's bit stream): thorough tier.
+func FuzzTamper(f *testing.F) {
+	f.Fuzz(rapid.MakeFuzz(tamperProp(vk.Sec("FuzzTamper"))))
+}
+
+func tamperProp(sec *vk.Section) func(rt *rapid.T) {
+	return func(rt *rapid.T) {
 		c := genCase(rt)
 		o := runCase(c)
 		if o.excluded {
@@ -194,7 +203,7 @@ func TestTamperRapid(t *testing.T) {
 		}
 		sec.Case(o.nontrivial, o.fp, o.classes...)
 		sec.Sample(func() any { return c.String() + " => " + o.describe })
-	})
+	}
 }
 
 // ---------------------------------------------------------------------------
